@@ -40,7 +40,7 @@ class Candset(Component):
         return candset_case(tier)
 
     def check(self, case, ctx):
-        L, R = canon.build_table(case["L"]), canon.build_table(case["R"])
+        L, R = canon.build_pair(case)
         fcfg = c04.fcfg_of(case)
         fcfg["op"] = case.get("op", ">=")
         f = calls.make_filter(ctx, fcfg, mk_tok(case["tok"]))
@@ -115,7 +115,7 @@ class OverlapExact(Component):
         return overlap_case(tier)
 
     def check(self, case, ctx):
-        L, R = canon.build_table(case["L"]), canon.build_table(case["R"])
+        L, R = canon.build_pair(case)
         f = calls.make_filter(ctx, {"type": "overlap", "threshold": case["threshold"],
                                     "op": case["op"], "allow_missing": case["allow_missing"]},
                               mk_tok(case["tok"]))
